@@ -127,6 +127,7 @@ class Interp:
         self.calls = []  # (qualname, args, kwargs, site, result)
         self.ext_calls = _Logged(self)  # (name, args, kwargs, site, result)
         self.timeline = []  # chronological ("call"|"ext", name, record)
+        self.numeric = []  # (site, idiom, argument, call stack): floating-point hazards of algebraically valid rewrites
         self.interop = []  # (site, ndarray value, index tensor): numpy array indexed by a torch tensor whose length may be 1
         self.reductions = []  # (site, op, reduced dimension symbols, call stack) of every sum / mean / ... over known axes
         self.gen_consumers = []  # scopes of loops that are being fed by a running generator (their names are loop-carried too)
